@@ -82,6 +82,10 @@ pub struct GraphOpts {
     pub reload_before_readat: bool,
     /// percentage of transactions that are rolled back instead of committed (C28)
     pub rollback_pct: u64,
+    /// closing diff probes per replica between random pairs of head sets (C08)
+    pub diffs: usize,
+    /// log patches of every mutating call (C09)
+    pub log_patches: bool,
 }
 
 pub const W_DEFAULT: [usize; 10] = [34, 38, 46, 56, 78, 84, 88, 91, 95, 98];
@@ -96,6 +100,7 @@ pub const W_DUP: [usize; 10] = [36, 38, 40, 50, 88, 92, 92, 95, 98, 99];
 /// actor id in use elsewhere), actor switches, save/load and probes.
 pub fn graph_scenario(idx: usize, rng: &mut Rng, o: &GraphOpts, family: &str) -> World {
     let mut w = World::new(o.enc, o.obs, idx, family);
+    w.log_patches = o.log_patches;
     let mut next_actor: u8 = 1;
     let n0 = 2 + rng.below(2);
     for _ in 0..n0 {
@@ -127,8 +132,14 @@ pub fn graph_scenario(idx: usize, rng: &mut Rng, o: &GraphOpts, family: &str) ->
         if c < wt[0] {
             if o.rollback_pct > 0 && rng.chance(o.rollback_pct, 100) {
                 let k = 1 + rng.below(4);
-                let front = *rng.pick(&["tx", "tx", "transact", "auto"]);
-                w.rollback_tx(r, rng, &o.prof, k, front);
+                let front = *rng.pick(&["tx", "tx", "transact", "auto", "txat", "txat"]);
+                let iso = if front == "txat" {
+                    let h = random_antichain(&w, r, rng);
+                    if h.is_empty() { None } else { Some(h) }
+                } else {
+                    None
+                };
+                w.rollback_tx(r, rng, &o.prof, k, front, iso);
             } else if total < o.max_changes {
                 let k = 1 + rng.below(3);
                 w.commit(r, rng, &o.prof, k, None, None);
@@ -243,6 +254,22 @@ pub fn graph_scenario(idx: usize, rng: &mut Rng, o: &GraphOpts, family: &str) ->
                     if let Some(last) = w.log.last_mut() {
                         last["afterload"] = serde_json::json!(true);
                     }
+                }
+            }
+        }
+    }
+    // closing diffs between pairs of head sets, both directions, including the empty heads
+    if o.diffs > 0 {
+        for r in 0..w.n() {
+            for _ in 0..o.diffs {
+                if w.dead {
+                    break;
+                }
+                let h1 = if rng.chance(1, 6) { vec![] } else { random_antichain(&w, r, rng) };
+                let h2 = if rng.chance(1, 6) { w.reps[r].get_heads() } else { random_antichain(&w, r, rng) };
+                w.probe_diff(r, &h1, &h2);
+                if rng.chance(1, 2) {
+                    w.probe_diff(r, &h2, &h1);
                 }
             }
         }
